@@ -568,11 +568,11 @@ def ob_build_names(report, prop):
             k(p, Agg('()', None, (Sym(f'cert_for({vname(nm)})', 'CertificateDer'), Sym('key_der', 'PrivateKeyDer')), 'tuple'))
 
         def m_client_cfg(ex, p, call, k):
-            p.events.append(Event('client-config', 'client_config', tuple(call.args)))
+            p.events.append(Event('client-config', 'client_config', tuple(e2.snapshot(ex, p, a) for a in call.args)))
             k(p, Sym('client_cfg_result', 'Result<quinn::ClientConfig>'))
 
         def m_server_cfg(ex, p, call, k):
-            p.events.append(Event('server-config', 'server_config', tuple(call.args)))
+            p.events.append(Event('server-config', 'server_config', tuple(e2.snapshot(ex, p, a) for a in call.args)))
             k(p, Sym('server_cfg_result', 'Result<quinn::ServerConfig>'))
 
         def m_clone(ex, p, call, k):
@@ -611,8 +611,8 @@ def ob_build_names(report, prop):
             out = []
 
             def grab(x):
-                if isinstance(x, Sym) and x.name in ('primary', 'alt@Some.0'):
-                    out.append(x.name)
+                if isinstance(x, Sym) and re.sub(r'(\.deref)+$', '', x.name) in ('primary', 'alt@Some.0'):       # the String or a &str view of it
+                    out.append(re.sub(r'(\.deref)+$', '', x.name))
                 return False
             derives_from(v, grab, ex=ex, p=r.path)
             return out
